@@ -90,7 +90,12 @@ def ref_node(recipe):
         kw = {k: build(v) for k, v in recipe["kwargs"]}
         meta = kw.pop("metadata", {})
         vals = {}
-        if kind in ("Input", "Output"):
+        if kind in ("Input", "Output") and "types" in recipe:
+            # the public type attributes were assigned after construction: `shape` documents the node's own side
+            t = build(recipe["types"][0 if kind == "Input" else 1])
+            s = list(t.values())[0]
+            vals["shape"] = s if isinstance(s, np.ndarray) else np.array(s)
+        elif kind in ("Input", "Output"):
             s = kw["input_type" if kind == "Input" else "output_type"]
             if isinstance(s, dict):
                 s = list(s.values())[0]
